@@ -31,6 +31,9 @@ pub mod ds {
     {
         assert(n < 0x100_0000 ==> (((n & 0xff) as u8 as u32) | ((((n >> 8) & 0xff) as u8 as u32) << 8) | ((((n >> 16) & 0xff) as u8 as u32) << 16)) == n) by (bit_vector);
     }
+    pub proof fn lemma_u32_one()
+        ensures dec_u32(enc_u32(1)) == 1
+    { assert((((1u32 & 0xff) as u8 as u32) | ((((1u32 >> 8) & 0xff) as u8 as u32) << 8) | ((((1u32 >> 16) & 0xff) as u8 as u32) << 16) | ((((1u32 >> 24) & 0xff) as u8 as u32) << 24)) == 1u32) by (bit_vector); }
     pub proof fn lemma_u64_roundtrip(n: u64)
         ensures dec_u64(enc_u64(n)) == n
     {
@@ -172,11 +175,32 @@ pub mod ds {
     pub open spec fn same_producer(g: Graph, fs: Seq<FileId>, k: int, b: BuildId) -> bool {
         forall|j: int| 0 <= j < k ==> gs::fid_ok(g, #[trigger] fs[j]) && gs::files(g)[ix(fs[j])].input == Some(b)
     }
+    pub open spec fn no_producer(g: Graph, fs: Seq<FileId>, k: int) -> bool { forall|b: BuildId| !#[trigger] same_producer(g, fs, k, b) }
+    pub proof fn lemma_no_producer_step(g: Graph, fs: Seq<FileId>, k: int)
+        requires no_producer(g, fs, k)
+        ensures no_producer(g, fs, k + 1)
+    {
+        assert forall|b: BuildId| !#[trigger] same_producer(g, fs, k + 1, b) by { assert(!same_producer(g, fs, k, b)); }
+    }
+    pub proof fn lemma_no_producer_none(g: Graph, fs: Seq<FileId>, k: int)
+        requires 0 <= k < fs.len(), gs::fid_ok(g, fs[k]), gs::files(g)[ix(fs[k])].input is None
+        ensures no_producer(g, fs, k + 1)
+    {
+        assert forall|b: BuildId| !#[trigger] same_producer(g, fs, k + 1, b) by { assert(gs::files(g)[ix(fs[k])].input is None); }
+    }
+    pub proof fn lemma_no_producer_mismatch(g: Graph, fs: Seq<FileId>, k: int, u: BuildId, bid: BuildId)
+        requires 0 < k < fs.len(), same_producer(g, fs, k, u), gs::fid_ok(g, fs[k]), gs::files(g)[ix(fs[k])].input == Some(bid), u != bid
+        ensures no_producer(g, fs, k + 1)
+    {
+        assert forall|b: BuildId| !#[trigger] same_producer(g, fs, k + 1, b) by {
+            if b == bid { assert(gs::files(g)[ix(fs[0])].input == Some(u)); } else { assert(gs::files(g)[ix(fs[k])].input == Some(bid)); }
+        }
+    }
     /// Some(b) iff the record names at least one output and every named output is currently produced by b
     pub open spec fn applies_to(g: Graph, fs: Seq<FileId>, r: Option<BuildId>) -> bool {
         match r {
             Some(b) => fs.len() > 0 && same_producer(g, fs, fs.len() as int, b),
-            None => fs.len() == 0 || forall|b: BuildId| !#[trigger] same_producer(g, fs, fs.len() as int, b),
+            None => fs.len() == 0 || no_producer(g, fs, fs.len() as int),
         }
     }
 
@@ -264,6 +288,38 @@ pub mod ds {
             let t = 3 * no + 2 + 3 * (dec_u16(s.subrange(3 * no, 3 * no + 2)) as int) + 8;
             if s.len() >= t { t } else { -1 }
         }
+    }
+
+    /// the reader's invariant: graph well formed, id map consistent, every db id names a file of the graph
+    pub open spec fn rinv(m: IdMap, g: Graph) -> bool { gs::wf_graph(g) && idmap_inv(m) && ids_files_ok(m, g) }
+    pub proof fn lemma_applied_wf(g0: Graph, h0: Hashes, g1: Graph, h1: Hashes, target: Option<BuildId>, deps: Seq<FileId>, hash: u64, m: IdMap)
+        requires rinv(m, g0), build_applied(g0, h0, g1, h1, target, deps, hash), gs::ids_ok(g0, deps)
+        ensures rinv(m, g1)
+    {
+        match target {
+            None => {}
+            Some(t) => {
+                assert forall|b: int| 0 <= b < gs::builds(g1).len() implies gs::wf_build(#[trigger] gs::builds(g1)[b]) && gs::build_ids_ok(g1, gs::builds(g1)[b]) && gs::no_dup(gs::builds(g1)[b].outs.ids@) by {
+                    assert(gs::wf_build(gs::builds(g0)[b]) && gs::build_ids_ok(g0, gs::builds(g0)[b]));
+                    if b != ix(t) { assert(gs::builds(g1)[b] == gs::builds(g0)[b]); }
+                }
+                assert forall|b: int, j: int| 0 <= b < gs::builds(g1).len() && 0 <= j < gs::builds(g1)[b].outs.ids@.len() implies
+                    gs::files(g1)[ix(#[trigger] gs::builds(g1)[b].outs.ids@[j])].input == Some(BuildId(b as u32)) by {
+                    if b != ix(t) { assert(gs::builds(g1)[b] == gs::builds(g0)[b]); }
+                    assert(gs::builds(g1)[b].outs == gs::builds(g0)[b].outs);
+                }
+                assert forall|f: int| 0 <= f < gs::files(g1).len() implies match (#[trigger] gs::files(g1)[f]).input {
+                        Some(p) => ix(p) < gs::builds(g1).len() && gs::builds(g1)[ix(p)].outs.ids@.contains(FileId(f as u32)), None => true } by {
+                    match gs::files(g0)[f].input { Some(p) => { if ix(p) != ix(t) { assert(gs::builds(g1)[ix(p)] == gs::builds(g0)[ix(p)]); } assert(gs::builds(g1)[ix(p)].outs == gs::builds(g0)[ix(p)].outs); } None => {} }
+                }
+            }
+        }
+    }
+    pub proof fn lemma_files_of_ok(m: IdMap, g: Graph, s: Seq<u8>, cnt: int)
+        requires ids_files_ok(m, g), ids_in_range(s, cnt, fileids(m).len() as int), 0 <= cnt, 3 * cnt <= s.len()
+        ensures gs::ids_ok(g, files_of(m, s, cnt))
+    {
+        assert forall|j: int| 0 <= j < cnt implies gs::fid_ok(g, #[trigger] files_of(m, s, cnt)[j]) by { assert(id_at(s, j) < fileids(m).len()); }
     }
     }
 }
